@@ -39,11 +39,9 @@ VALUE_PRESERVING_METHODS = {
 ARITHMETIC_CALLS = (DIMLESS_ARG_FUNCS | NUMERIC_FUNCS | {"sqrt", "cbrt", "root", "Pow", "Mul", "Add", "Min", "Max", "Derivative", "diff",
                                                         "Integral", "integrate", "Sum", "Product", "re", "im", "conjugate", "Mod", "pow", "sum", "round"}) - {"abs", "ceiling", "Abs"}
 
-# frozen exceptions: (module, function, normalised expression) -> reason
-P2_EXCEPTIONS = {
-    ("symplyphysics.laws.optics.refraction_angle_from_environments", "calculate_refraction_angle", "angle_applied * units.radian"):
-        "tags the solved angle with the unit radian (scale 1): a unit annotation, not arithmetic on the value",
-}
+# not arithmetic on the value: `<solved angle> * units.radian` tags the angle with the unit radian, whose scale factor is 1 (one place today:
+# optics.refraction_angle_from_environments.calculate_refraction_angle). Recognised by the operand, not by the spelling of the statement.
+UNIT_TAGS = {"units.radian", "units.rad"}
 
 
 def _reaching_statements(m, fn: ast.FunctionDef) -> list:
@@ -199,8 +197,7 @@ def check(run: Run) -> None:
                             seen_ops.add(id(x))
                             if tainted(n, x.left) or tainted(n, x.right):
                                 run.ob("P2", None)
-                                key = (m.name, g.fn.name, norm(x, 120))
-                                if key in P2_EXCEPTIONS:
+                                if isinstance(x.op, ast.Mult) and (dotted(x.left) in UNIT_TAGS or dotted(x.right) in UNIT_TAGS):
                                     continue
                                 run.violate("P2", f"{g.qual}:{norm(x, 120)}", m, x,
                                             f"arithmetic `{norm(x, 80)}` is applied to a value derived from the law before it is returned")
